@@ -30,6 +30,43 @@ struct Cond : CondBase {
 	}
 };
 
+// a class that serialises a field BEFORE its base classes and has two of them (the field counter must not count anything twice)
+struct CondBase2 {
+	unsigned mask2 = 0;
+	template <class TArchive> void Serialize(TArchive& archive) {
+		if (mask2 & 4u) { int c0 = 30; archive << KeyValue("c0", c0); }
+		int c1 = 31; archive << KeyValue("c1", c1);
+	}
+};
+struct Cond2 : CondBase, CondBase2 {
+	template <class TArchive> void Serialize(TArchive& archive) {
+		if (mask2 & 1u) { int pre = 5; archive << KeyValue("pre", pre); }
+		archive << BaseObject<CondBase>(*this);
+		if (mask2 & 8u) { std::string mid = "m"; archive << KeyValue("mid", mid); }
+		archive << BaseObject<CondBase2>(*this);
+		if (mask2 & 16u) { bool post = false; archive << KeyValue("post", post); }
+	}
+};
+
+Register o2("mp.obj2", [](const Tokens& t) -> std::string {
+	if (t.size() != 3) throw BadOp("arity");
+	const bool stream = t[1] == "stream";
+	std::istringstream is(t[2]);
+	std::string m, res;
+	while (std::getline(is, m, ';')) {
+		Cond2 c; c.mask2 = static_cast<unsigned>(std::stoul(m)); c.mask = (c.mask2 & 2u) ? 1u : 0u;
+		std::string doc;
+		try {
+			if (stream) { std::ostringstream os; SaveObject<MsgPack::MsgPackArchive>(c, os); doc = hexBytes(os.str()); }
+			else { std::string out; SaveObject<MsgPack::MsgPackArchive>(c, out); doc = hexBytes(out); }
+		}
+		catch (const std::exception& e) { doc = "exc:" + describeException(e); }
+		if (!res.empty()) res.push_back(';');
+		res += doc;
+	}
+	return res.empty() ? "-" : res;
+});
+
 Register o1("mp.obj", [](const Tokens& t) -> std::string {
 	if (t.size() != 3) throw BadOp("arity");
 	const bool stream = t[1] == "stream";
